@@ -21,7 +21,8 @@ def is_reported(op, out):
         return False
     if t[0] in ("ck", "bl"):
         if t[2] in ("verify",):
-            return out.startswith("rc=1")
+            # a get/set the callback made reports through its own return code (visible in the callback's observations)
+            return out.startswith("rc=1") or re.search(r"cb=\[[^\]]*rc=[1-9]", out) is not None
         if t[2] == "gen":
             return out.startswith("tok=NULL")
         if t[2] in ("hget", "cget", "hset", "cset"):
@@ -101,6 +102,9 @@ def scenarios(pool, extra_keys, tier):
         "bl 0 cset json - %s 1" % hx(b'{"a":[1,2],"b":"x","iss":"me"}'), "bl 0 hset str %s %s 0" % (hx(b"kid"), hx(b"k1")),
         "bl 0 offset exp 60", "bl 0 gen", "ck 0 new", "ck 0 setkey 0 1 0", "ck 0 claimset iss %s" % hx(b"me"), "ck 0 verify @last",
         "ck 0 claimset iss %s" % hx(b"other"), "ck 0 verify @last", "ck 0 setcb cget:json:-,hget:str:%s" % hx(b"alg"), "ck 0 verify @last",
+        # tokens that must be REJECTED, with a callback installed: no single failed allocation may turn the rejection into an accept
+        "ck 0 claimset iss %s" % hx(b"me"), "clock 999999", "ck 0 verify @last", "clock 1000", "ck 0 claimset sub %s" % hx(b"nobody"), "ck 0 verify @last",
+        "ck 0 claimdel sub", "ck 0 verify @last",
         "bl 0 cget json -", "bl 0 hget str %s" % hx(b"kid"), "bl 0 cget int %s" % hx(b"nope"), "jwks 1 find %s" % hx(b"k1"),
         "jwks 1 del", "bl 0 free", "ck 0 free"]
     sc["unsigned-and-malformed"] = [
